@@ -41,9 +41,10 @@ type (
 		L, R Expr
 	}
 	EQuant struct {
-		Forall bool
-		Vars   []QVar
-		Body   Expr
+		Forall   bool
+		Vars     []QVar
+		Body     Expr
+		Triggers [][]Expr
 	}
 	QVar struct{ Name, Type string }
 )
@@ -351,8 +352,21 @@ func (p *eparser) primary() Expr {
 				break
 			}
 			p.want("::")
+			var trigs [][]Expr
+			for p.isOp("{") {
+				p.p++
+				var grp []Expr
+				for !p.isOp("}") {
+					grp = append(grp, p.expr(0))
+					if p.isOp(",") {
+						p.p++
+					}
+				}
+				p.want("}")
+				trigs = append(trigs, grp)
+			}
 			body := p.expr(0)
-			return &EQuant{t.s == "forall", vs, body}
+			return &EQuant{t.s == "forall", vs, body, trigs}
 		}
 		if p.isOp("(") {
 			p.p++
